@@ -19,6 +19,8 @@ type irGen struct {
 	v    []string // wallets native to instance 2
 	live []string // wallets of instance 1 that exist (not removed)
 	fill int
+	// blocks whose coinbase carries an indexed-but-unsupported output to address 0 of a wallet (D41)
+	unsup map[string][]string
 }
 
 func (t *irGen) op(class, f string, a ...interface{}) { t.g.Op(class, f, a...) }
@@ -64,6 +66,52 @@ func (t *irGen) fillBlocks(k, mask int) {
 			t.q2 = append(t.q2, b.name)
 		}
 	}
+}
+
+// craftUnsupported extends the node's chain by a block whose coinbase pays, besides a stranger, a binding
+// template to address 0 of wallet w whose target has no address form: the node indexes the transaction
+// under w's script hash, the wallet reads the script as unsupported. The rescan meets an indexed transaction
+// that filterTxForImporting finds irrelevant and skips it (fix D41). The odd coin stays out of the chain
+// simulator's unspent set (nothing spends it).
+func (t *irGen) craftUnsupported(w string) {
+	l := t.l
+	pb := l.tip()
+	l.nBlk++
+	b := &gBlock{name: fmt.Sprintf("B%d", l.nBlk), parent: pb.name, height: pb.height + 1, utxo: map[string]gCoin{}}
+	for k, v := range pb.utxo {
+		b.utxo[k] = v
+	}
+	l.nTx++
+	cb := &gTx{name: fmt.Sprintf("C%d", l.nTx), cb: true}
+	cb.outs = []string{fmt.Sprintf("%s:%d", l.stranger(), (100+l.r.Int63n(900))*1000000)}
+	applyTx(b.utxo, cb, b.height)
+	cb.outs = append(cb.outs, fmt.Sprintf("%s:%d:bindbad:%d", l.addrs[w][0], (1+l.r.Int63n(9))*1000000, l.r.Intn(3)))
+	cb.line = fmt.Sprintf("tx %s %d cb %s", cb.name, l.nTx, strings.Join(cb.outs, ";"))
+	l.define(cb)
+	b.txs = append(b.txs, cb)
+	l.blocks[b.name] = b
+	t.op("block", "block %s %s %s", b.name, pb.name, cb.name)
+	t.op("submit", "submit %s", b.name)
+	l.chain = append(l.chain, b.name)
+	l.queue = append(l.queue, b.name)
+	l.markDead()
+	if t.unsup == nil {
+		t.unsup = map[string][]string{}
+	}
+	t.unsup[w] = append(t.unsup[w], b.name)
+	t.g.Stats["craft-unsupported-indexed"]++
+}
+
+// unsupOnChain: does the node's chain hold a crafted block for wallet w?
+func (t *irGen) unsupOnChain(w string) bool {
+	for _, bn := range t.unsup[w] {
+		for _, c := range t.l.chain {
+			if c == bn {
+				return true
+			}
+		}
+	}
+	return false
 }
 
 // usedOnChain: is the address paid by a template output on the node's current chain?
@@ -263,7 +311,11 @@ func genImpHistory(g *Gen, long bool, idx int) {
 			}
 			break
 		}
-		t.chainStep(g.Scale(4, 8))
+		if r.Intn(8) == 0 {
+			t.nodeEvent(func() { t.craftUnsupported(own1[r.Intn(len(own1))]) })
+		} else {
+			t.chainStep(g.Scale(4, 8))
+		}
 		deliver()
 		if r.Intn(5) == 0 {
 			t.observe1(own1, false)
@@ -336,7 +388,11 @@ func genImpHistory(g *Gen, long bool, idx int) {
 		case k < 7:
 			t.op("impstep", "i2 impstep %s", w)
 		case k < 10:
-			t.nodeEvent(l.extend)
+			if r.Intn(4) == 0 {
+				t.nodeEvent(func() { t.craftUnsupported(w) })
+			} else {
+				t.nodeEvent(l.extend)
+			}
 		case k < 12:
 			d := 1 + r.Intn(g.Scale(4, 8))
 			if long && r.Intn(2) == 0 {
@@ -377,6 +433,9 @@ func genImpHistory(g *Gen, long bool, idx int) {
 	// ---- let it finish: follower 2 catches up, then enough batches for the whole chain
 	t.drain1()
 	t.drain2()
+	if t.unsupOnChain(w) {
+		g.Stats["import-unsupported-indexed"]++
+	}
 	for i := 0; i < len(l.chain)/1000+3; i++ {
 		t.op("impstep-flush", "i2 impstep %s", w)
 	}
